@@ -307,10 +307,91 @@ func TestVerif_C12(t *testing.T) {
 	for i := 0; i < nShared && rep.Violations() < 3; i++ {
 		c12SharedRelay(rep, i)
 	}
+	// a client that says what it has to say and closes: whatever it sent before its close
+	// frame reaches the handler, however busy the handler is meanwhile
+	nClose := vk.N(60, 800)
+	vk.ParallelW(8, nClose, func(i int) {
+		if rep.Violations() < 3 {
+			c12CloseAfterLastFrame(rep, i)
+		}
+	})
+	rep.Require(rep.Counter("connections_closed_right_after_the_last_frame") >= int64(nClose*9/10), "connections closed right after their last frame")
 	rep.Require(rep.Counter("shared_relay_connections") >= int64(nShared*4), "connections sharing a relay")
 	rep.Require(rep.Counter("connections") >= int64(nConn*9/10), "connections")
 	rep.Require(rep.SetSize("server_message_types") == 7, "all seven server message types")
 	rep.Require(rep.SetSize("frame_classes") >= 40, "frame classes")
+}
+
+// c12CloseAfterLastFrame: 1-6 valid frames and then a normal close, against a handler that needs
+// a few milliseconds per message (and, like the library's own handlers, stops at the first of
+// "context done" / "next message"). The relay reads the close frame only after it has handed
+// over every frame before it, so the handler's log must hold them all, in order.
+func c12CloseAfterLastFrame(rep *vk.Report, i int) {
+	r := vk.RNG("C12/close", i)
+	var mu sync.Mutex
+	var got []string
+	done := make(chan struct{})
+	work := time.Duration(1+r.IntN(12)) * time.Millisecond
+	h := mocrelay.HandlerFunc(func(ctx context.Context, send chan<- mocrelay.ServerMsg, recv <-chan mocrelay.ClientMsg) error {
+		defer close(done)
+		for {
+			select {
+			case <-ctx.Done():
+				return ctx.Err()
+			case m, ok := <-recv:
+				if !ok {
+					return mocrelay.ErrRecvClosed
+				}
+				if rq, is := m.(*mocrelay.ClientReqMsg); is {
+					mu.Lock()
+					got = append(got, rq.SubscriptionID)
+					mu.Unlock()
+				}
+				time.Sleep(work)
+			}
+		}
+	})
+	opt := mocrelay.NewDefaultRelayOption()
+	opt.RecvRateLimitRate = 1e9
+	opt.RecvRateLimitBurst = 1 << 30
+	if r.IntN(2) == 0 {
+		opt.PingDuration = 0
+	}
+	srv := httptest.NewServer(mocrelay.NewRelay(h, opt))
+	defer srv.Close()
+	ctx, cancel := context.WithTimeout(context.Background(), 3*vk.WaitBound)
+	defer cancel()
+	conn, _, err := websocket.Dial(ctx, "ws"+strings.TrimPrefix(srv.URL, "http"), nil)
+	if err != nil {
+		rep.Inconclusive(fmt.Sprintf("C12: dial failed: %v", err))
+		return
+	}
+	defer conn.CloseNow()
+	n := 1 + r.IntN(6)
+	var sent []string
+	for k := 0; k < n; k++ {
+		sub := fmt.Sprintf("c%d-k%d", i, k)
+		if err := conn.Write(ctx, websocket.MessageText, []byte(`["REQ","`+sub+`",{}]`)); err != nil {
+			rep.Inconclusive(fmt.Sprintf("C12: close scenario: write failed: %v", err))
+			return
+		}
+		sent = append(sent, sub)
+	}
+	conn.Close(websocket.StatusNormalClosure, "")
+	select {
+	case <-done:
+	case <-time.After(vk.WaitBound):
+		rep.Inconclusive("C12: close scenario: the handler did not return after the client's close")
+		return
+	}
+	rep.Eval(1)
+	rep.Count("connections_closed_right_after_the_last_frame", 1)
+	mu.Lock()
+	defer mu.Unlock()
+	if strings.Join(got, ",") != strings.Join(sent, ",") {
+		rep.Violation("handler/lost-before-close", fmt.Sprintf("the client sent %d valid frames and then closed normally; the handler (%v per message) received %d of them", len(sent), work, len(got)),
+			map[string]any{"sent": sent, "handler_received": got})
+	}
 }
 
 func isSentinel(m mocrelay.ClientMsg) bool {
